@@ -538,6 +538,11 @@ class Interp(ExprMixin):
                 if isinstance(v, Tup):
                     args.extend(v.items)        # f(*known_sequence)
                     continue
+                from .npmodel import _returned_tuple_len
+                n_ret = _returned_tuple_len(self, v) if isinstance(v, Poly) else None
+                if n_ret is not None and n_ret <= 8:
+                    args.extend(nf.index(v, Poly.const(i)) for i in range(n_ret))    # f(*g(...)) with g returning an n-tuple
+                    continue
                 unknown_star.append((len(args), v))
                 args.append(self.eval(a, st))       # starred(v): stays marked unless its length can be inferred below
                 continue
@@ -718,6 +723,17 @@ class Interp(ExprMixin):
         return r
 
     def construct(self, cls, args, kwargs, st, node):
+        from .expr import _is_enum
+        if _is_enum(cls) and len(args) == 1 and not kwargs:
+            # Color('r'): the member whose value that is
+            v = args[0]
+            if isinstance(v, Const) or (isinstance(v, Poly) and v.const_value() is not None):
+                for mname, val in cls.class_attrs.items():
+                    if isinstance(val, ast.Constant) and not mname.startswith('_'):
+                        mv = self.e_Constant(val, None)
+                        if mv == v:
+                            return Const(('enum', cls.key, mname))
+            return app('enum:' + cls.key, v if isinstance(v, (Poly, Tup, Const)) else P(v))
         init = cls.find_method('__init__')
         obj = Poly.atom(('fresh', fresh_id(), 'new:' + cls.key))
         self.types[obj.single_atom()] = cls
